@@ -526,6 +526,47 @@ func checkKV(w *World, c *Check, pr *prover) {
 					}
 					// composite literal LangRefValue{Ref:…, Value:…} built in a local then appended
 				}
+				// the pair handed to a package method that builds the entry from its parameters (n.Append(ref, text)): the
+				// callee's stores into Ref / Value are fed by its parameters, which stand for this call's arguments
+				if call, ok := in.(*ssa.Call); ok {
+					if cal := call.Common().StaticCallee(); cal != nil && w.InPkg(cal) && cal.Blocks != nil && cal != dec {
+						for _, cb := range cal.Blocks {
+							for _, cin := range cb.Instrs {
+								st, ok := cin.(*ssa.Store)
+								if !ok {
+									continue
+								}
+								fa, ok := st.Addr.(*ssa.FieldAddr)
+								if !ok {
+									continue
+								}
+								fname := fieldNameOf(fa.X.Type(), fa.Field)
+								if fname != "Ref" && fname != "Value" {
+									continue
+								}
+								v := st.Val
+								for {
+									if cv, ok := v.(*ssa.Convert); ok {
+										v = cv.X
+										continue
+									}
+									if ct, ok := v.(*ssa.ChangeType); ok {
+										v = ct.X
+										continue
+									}
+									break
+								}
+								for pi, p := range cal.Params {
+									if v == ssa.Value(p) && pi < len(call.Common().Args) {
+										if s := srcSlot(call.Common().Args[pi]); s != "" {
+											decOK[fname] = s
+										}
+									}
+								}
+							}
+						}
+					}
+				}
 			}
 		}
 		for slot, field := range want {
@@ -555,7 +596,10 @@ func checkListDecodeCount(w *World, c *Check) {
 			for _, in := range b.Instrs {
 				switch x := in.(type) {
 				case *ssa.Store:
-					if _, isElem := x.Addr.(*ssa.IndexAddr); isElem {
+					if ia, isElem := x.Addr.(*ssa.IndexAddr); isElem {
+						if _, local := ia.X.(*ssa.Alloc); local {
+							continue // the temporary array of a variadic call / composite literal
+						}
 						return false // overwrites an element
 					}
 				case *ssa.Call:
